@@ -244,6 +244,7 @@ func (f *STFS) Initialize(rootProposal string, rootPerm os.FileMode) (root strin
 			return mkdirRoot(false) // The drive is not held if the reader could not be opened
 		}
 
+		foundRecords := false
 		if err := recovery.Index(
 			reader,
 			f.readOps.GetBackend().MagneticTapeIO,
@@ -258,6 +259,8 @@ func (f *STFS) Initialize(rootProposal string, rootPerm os.FileMode) (root strin
 			0,
 
 			func(hdr *tar.Header, i int) error {
+				foundRecords = true
+
 				return encryption.DecryptHeader(hdr, f.readOps.GetPipes().Encryption, f.readOps.GetCrypto().Identity)
 			},
 			func(hdr *tar.Header, isRegular bool) error {
@@ -266,6 +269,15 @@ func (f *STFS) Initialize(rootProposal string, rootPerm os.FileMode) (root strin
 
 			f.onHeader,
 		); err != nil {
+			if foundRecords {
+				// The tape already holds records, but they could not be indexed (i.e. wrong keys or a damaged tape); don't append a new root to it
+				if cerr := f.readOps.GetBackend().CloseReader(); cerr != nil {
+					return "", cerr
+				}
+
+				return "", err
+			}
+
 			return mkdirRoot(true)
 		}
 
